@@ -455,6 +455,8 @@ class Engine(object):
         if ty == 'setlike':
             c = ex.as_coll(sv, path, 'pass')
             return SV('coll', None, Coll('H', c.mem, True))
+        if ty == 'iterRefSets' and sv.ty == 'coll' and sv.x.kind == 'ref' and sv.x.elem_ty == 'set':
+            return sv
         for x in self.ext:
             r = x.coerce(self, ex, sv, ty, path)
             if r is not None:
@@ -589,6 +591,12 @@ class Engine(object):
             return SV('coll', None, Coll('pair', hp.fresh(name, hp.Rel), False))
         if ty == 'Hopt':
             return SV('H', hp.fresh(name, H))
+        if ty == 'iterRefSets':
+            # a container of set objects (fairness constraints): every element is an existing set
+            m = hp.fresh(name, hp.SetR)
+            r = z3.Int('r!irs')
+            pc.append(z3.ForAll([r], z3.Implies(m[r], z3.And(r >= 0, r < heap.alloc))))
+            return SV('coll', None, Coll('ref', m, False, elem_ty='set'))
         if ty == 'anydict':
             return SV('anydict', None, {'isdict': hp.fresh(name + '_isdict', z3.BoolSort()),
                                         'dom': hp.fresh(name + '_dom', hp.SetH),
